@@ -1,5 +1,5 @@
 """Property -> rule functions."""
-from .rules import safety, codecs, determinism, exhaust, otl, tables, xmlvocab
+from .rules import safety, codecs, determinism, exhaust, otl, tables, xmlvocab, container
 
 
 def _scoped(fn, **kw):
@@ -15,6 +15,7 @@ PROPS = {
     "C01": [otl.f26_api_conform, otl.f3_schema_wf, otl.f2_conv_pair, tables.f1_fmt_pair] + tables.C01_EXTRA + [safety.f18_fallback, determinism.lazy_independence],
     "C02": [tables.f1_fmt_pair, otl.f2_conv_pair, otl.f3_schema_wf, codecs.f5_points, codecs.f5_deltas] + tables.C02_EXTRA,
     "C03": xmlvocab.ALL + [tables.glyf_component, codecs.tag_ident, codecs.f22_fixed_tools, otl.f2_conv_pair, tables.pair_exhaustive],
+    "C04": [container.f10_dep_order, container.container_constants, container.alignment, container.directory_and_checksums, container.f22_recalc_twins, container.checksum_twins, tables.woff_discriminator],
     "C06": otl.C06,
     "C07": exhaust.ALL_C07 + [_scoped(exhaust.f19_varidx, scope=("subset/",), rule="F19"), _scoped(determinism.f12_set_order, scope=("subset/",), rule="F12-subset")],
     "C08": exhaust.ALL_C08 + [_scoped(exhaust.f19_varidx, scope=("varLib/instancer/",), rule="F19"), _scoped(determinism.f12_set_order, scope=("varLib/instancer/",), rule="F12-instancer")],
